@@ -266,6 +266,18 @@ pub fn run(c: &[u64]) -> Vec<i128> {
             // the instruction pointer is filled in by the trampoline (it is the resume address)
             let mut words: [u64; 5] = core::mem::transmute(f);
             let _: SegmentSelector = CS::get_reg();
+            // the wrapper type's constructor must build the same hardware image (rip, cs, rflags, rsp, ss),
+            // also when the two selectors differ
+            {
+                let (c2, s2) = (SegmentSelector(0x1233), SegmentSelector(0x452b));
+                let a = InterruptStackFrame::new(VirtAddr::new(0x1111), c2, RFlags::from_bits_retain(fl), VirtAddr::new(0x2222), s2);
+                let b = InterruptStackFrameValue::new(VirtAddr::new(0x1111), c2, RFlags::from_bits_retain(fl), VirtAddr::new(0x2222), s2);
+                let wa: [u64; 5] = core::mem::transmute_copy(&*a);
+                let wb: [u64; 5] = core::mem::transmute(b);
+                if wa != wb || wb[0] != 0x1111 || wb[1] & 0xffff != 0x1233 || wb[2] != fl || wb[3] != 0x2222 || wb[4] & 0xffff != 0x452b {
+                    return vec![-77];
+                }
+            }
             GH_SAVE[4] = 0; GH_SAVE[5] = 0; GH_SAVE[7] = 0;
             enter(1, do_iretq as usize as u64, &mut words, *k, 0, 0);
             vec![16 - GH_SAVE[7] as i128, ((GH_SAVE[4].wrapping_sub(landing)) / 8) as i128, (GH_SAVE[5] & FLAG_MASK) as i128]
